@@ -114,7 +114,7 @@ def check_blind(case, acc):
     n = case["n"]
     rec = mut.Recorder()
     mut.CURRENT[0] = rec
-    universe = [mut.CLASSES[c][0](i) for i, c in enumerate(mut.class_list(case["cls"], n))]
+    universe = mut.create_nodes(mut.class_list(case["cls"], n))
     for node in universe:
         rec.labels.add(node)
     rec.universe = universe
@@ -248,7 +248,7 @@ def _blind_cases(spec, n, length, index, count):
 
 def run_task(task, acc):
     if task["engine"] == "blind-enum":
-        return acc.run_enum(check_case, _blind_cases(task["spec"], task["n"], task["length"], task["index"], task["count"]))
+        return acc.run_enum(check_case, mut.blind_sequences(task["spec"], task["n"], task["length"], task["index"], task["count"]))
     if task["engine"] == "blind-hyp":
         from hypothesis import strategies as st
 
